@@ -347,6 +347,59 @@ def u_multitask_step_perm(h, X, j):
     h.ensure('model-fit-consistent', cons)
 
 
+def u_pn_direction_perm(h, X='corr32', sparse=True, fit_intercept=False):
+    """prox-Newton's inner coordinate descent (real `_descent_direction` / `_descent_direction_s`, one sweep: tol = inf) on
+    (X, weights, w) with working set [0, 1] and on the feature-swapped problem (columns, WeightedL1 weights and coefficients
+    permuted together) with working set [1, 0] -- the same features in the same order under other names: the directions
+    must coincide entry by entry.  Exercises every place where a working-set POSITION could be used for a FEATURE index."""
+    import skglm.solvers.prox_newton as pn
+    from checks.common import X_of
+    Pm, Dm = P(), D()
+    Xc = X_of(X)
+    n, p = Xc.shape
+    assert p == 2
+    al = h.real('alpha')
+    h.assume(al > 0)
+    wt = h.vec('wt', p)
+    for k in range(p):
+        h.assume(wt[k] >= 0)
+    y = h.vec('y', n)
+    w = h.vec('w', p + (1 if fit_intercept else 0))
+
+    def run(cols, ws):
+        Xm = Xc[:, cols]
+        if h.mode == 'sym':
+            wts = h.arr([wt[c] for c in cols])
+            wm = h.arr([w[c] for c in cols] + ([w[p]] if fit_intercept else []))
+            Xw = h.arr([sum(Xm[i, k] * wm[k] for k in range(p) if Xm[i, k] != 0) + (wm[p] if fit_intercept else 0.0)
+                        for i in range(n)])
+        else:
+            wts = np.array([float(wt[c]) for c in cols])
+            wm = np.array([float(w[c]) for c in cols] + ([float(w[p])] if fit_intercept else []))
+            Xw = Xm @ wm[:p] + (wm[p] if fit_intercept else 0.0)
+        pen = h.penalty(Pm.WeightedL1, alpha=al, weights=wts)
+        df = h.datafit(Dm.Quadratic)
+        Xd = h.const(Xm)
+        raw = df.raw_grad(y, Xw)
+        wsa = np.array(ws, dtype=np.int64)
+        gl = [sum(Xm[i, j] * raw[i] for i in range(n) if Xm[i, j] != 0) for j in ws]
+        grad_ws = h.arr(gl) if h.mode == 'sym' else np.array([float(g) for g in gl])
+        if sparse:
+            Xs = h.csc(Xd)
+            return pn._descent_direction_s(Xs.data, Xs.indptr, Xs.indices, y, wm, Xw, fit_intercept, grad_ws, df, pen, wsa,
+                                           np.inf, 'subdiff')
+        return pn._descent_direction(Xd, y, wm, Xw, fit_intercept, grad_ws, df, pen, wsa, np.inf, 'subdiff')
+    dA, XdA, _ = run([0, 1], [0, 1])
+    dB, XdB, _ = run([1, 0], [1, 0])
+    h.observe('d0', dA[0])
+    ok = h.true()
+    for k in range(len(dA)):
+        ok = h.and_(ok, h.eq(dA[k], dB[k]))
+    for i in range(n):
+        ok = h.and_(ok, h.eq(XdA[i], XdB[i]))
+    h.ensure('direction-commutes-with-feature-renaming', ok)
+
+
 def u_grp_converter(h):
     from skglm.utils.data import grp_converter
     gi1, gp1 = grp_converter([[0, 2], [1]], 3)
@@ -391,6 +444,11 @@ def units(tier):
     q = tier == 'quick'
     perms2 = [(1, 0)]
     perms3 = [(1, 0, 2), (2, 0, 1)] if q else [pp for pp in itertools.permutations(range(3)) if pp != (0, 1, 2)]
+    for sp, fi in itertools.product((True, False), (False, True)):
+        if q and not sp and fi:
+            continue
+        us.append(Unit('C15/S/prox-newton-direction-feature-renaming[WeightedL1,sparse=%s,intercept=%s]' % (sp, fi),
+                       u_pn_direction_perm, dict(X='corr32', sparse=sp, fit_intercept=fi), wall_s=120, timeout_ms=8000))
     for name in ('WeightedL1', 'WeightedMCPenalty'):
         for pos in (False, True):
             for perm in perms2 + ([] if q else perms3):
